@@ -10,7 +10,10 @@ from sa.resolve import ClassIndex
 EXPLANATION = (
     "REGISTRY (every rule class defined under validation/rules is listed in a rule tuple; executable "
     "rules in specified_rules), REACHABLE-KINDS (every kind-specific handler of a registered rule names "
-    "a kind the validation traversal reaches), ERROR-DISCIPLINE (no constructed error is dropped)."
+    "a kind the validation traversal reaches), ERROR-DISCIPLINE (no constructed error is dropped), "
+    "PARALLEL-STACKS + TYPEINFO-BALANCE (the type context rules rely on is pushed/popped consistently), "
+    "and on the execution side AWAIT-GUARD, COLLECT-GUARD, HANDLER-NULLS (errors on conforming data cannot "
+    "come from awaiting plain values, from selections dropped by collection, or from stale values)."
 )
 LEVEL_TEXT = (
     "Static decision of rule-set integrity: a rule that exists but is not registered, or whose "
@@ -28,3 +31,10 @@ def run(check: Check, repo: Repo, tier: str) -> None:
     V.reachable_kinds(check, repo, classes, model, tuples)
     mods = [m for m in repo.package_modules("validation.rules") if ".custom" not in m.name]
     V.error_discipline(check, repo, mods)
+    V.parallel_stacks(check, repo, classes)
+    V.typeinfo_balance(check, repo, classes)
+    from rules import exec_rules as X
+    em = repo.package_modules("execution")
+    X.await_guard(check, repo, em)
+    X.collect_guard(check, repo)
+    X.handler_nulls(check, repo, em)
